@@ -502,6 +502,28 @@ theorem lwe_compress_decompress (b nl size kxe : Nat) (stream : List Nat) (fille
 example : (Sampling.vecFillUniform 3 3 2 [1, 2, 3, 4, 5, 6, 7]).isSome ∧
     ((Sampling.vecFillUniform 3 3 2 [1, 2, 3, 4, 5, 6, 7]).bind (fun f => Core.lweEncryptSk 3 2 5 f.1 [2] 3 [1, -1] (-1))).isSome := by decide
 
+/-- **`decompress_lwe` as it is, LWE dimension 1**: the statement of `lwe_compress_decompress` holds for the routine with its
+layout assertion when the receiver has dimension 1 — the only dimension the assertion lets through. -/
+theorem lwe_decompress_partial (b size kxe : Nat) (stream : List Nat) (filled : Col) (rest : List Nat)
+    (hf : Sampling.vecFillUniform b (1 + 1) size stream = some (filled, rest)) (hfl : filled.length = size)
+    (pt : List Int) (ptB : Nat) (sk : Poly) (e : Int) (ct : Col) (h : Core.lweEncryptSk b size kxe filled pt ptB sk e = some ct) :
+    Core.decompressLweRust b 1 (Core.lweBodies ct) stream = some ct := by
+  unfold Core.decompressLweRust
+  rw [if_neg (by decide)]
+  exact lwe_compress_decompress b 1 size kxe stream filled rest hf hfl pt ptB sk e ct h
+
+example : ((Sampling.vecFillUniform 3 2 2 [1, 2, 3, 4, 5, 6, 7]).bind (fun f => Core.lweEncryptSk 3 2 5 f.1 [2] 3 [1] (-1))).isSome := by decide
+
+/-- **finding**: for an LWE of dimension 2 (any dimension other than 1) the real `decompress_lwe` panics on a compressed ciphertext
+whose decompression is well defined and equal to the standard ciphertext: `LWECompressed::n()` is the ring degree of its body
+buffer (1), which the layout assertion compares with the receiver's LWE dimension. -/
+theorem lwe_decompress_counterexample :
+    ∃ (ct : Col), (Sampling.vecFillUniform 3 3 2 [1, 2, 3, 4, 5, 6, 7]).bind (fun f => Core.lweEncryptSk 3 2 5 f.1 [2] 3 [1, -1] (-1)) = some ct ∧
+      Core.decompressLwe 3 2 (Core.lweBodies ct) [1, 2, 3, 4, 5, 6, 7] = some ct ∧
+      Core.decompressLweRust 3 2 (Core.lweBodies ct) [1, 2, 3, 4, 5, 6, 7] = none := by
+  refine ⟨[[3, -2, -1], [0, 1, 2]], by decide, by decide, by decide⟩
+
+
 /-! ### the GGLWE→GGSW key: two levels of branching -/
 
 /-- **`GGLWEToGGSWKeyCompressed`** (after the repair that stores the seeds in the object): sub-key `i`
